@@ -925,7 +925,12 @@ class Interp:
         m = re.fullmatch(r'<(.*) as std::ops::(Fn|FnMut|FnOnce)<.*>>::(call|call_mut|call_once)', callee, re.S)
         if m:
             args = list(argv[1].fields) if isinstance(argv[1], Adt) else [argv[1]]
-            return self.call_value(argv[0], args, dest_ty)
+            f = argv[0]
+            target = self.load(f) if isinstance(f, Ptr) else f
+            if target is None and m.group(1).startswith('{closure@'):
+                # zero-sized (non-capturing) closure: MIR never initialises its local
+                f = Adt(mir.normalize_span(m.group(1)), 0, ())
+            return self.call_value(f, args, dest_ty)
         m = re.fullmatch(r'<(.*) as std::cmp::PartialEq(<.*>)?>::ne', callee, re.S)
         if m:
             return b_not(self.call('<%s as std::cmp::PartialEq%s>::eq' % (m.group(1), m.group(2) or ''), argv, dest_ty))
@@ -1068,6 +1073,34 @@ class Interp:
             return base_ty(t)
         return t
 
+    @staticmethod
+    def _short_sig(t):
+        """'&'a path::Name<..>' -> '&Name' (lifetimes, paths and generic arguments dropped)"""
+        t = re.sub(r"'\w+ ", '', t.strip())
+        ref = ''
+        while t.startswith('&'):
+            ref += '&'
+            t = t[1:].strip()
+            if t.startswith('mut '):
+                t = t[4:]
+        return ref + base_ty(t).split('::')[-1]
+
+    @staticmethod
+    def _rd_sig(ty):
+        """the same signature from a rustdoc JSON type"""
+        ref = ''
+        while isinstance(ty, dict) and 'borrowed_ref' in ty:
+            ref += '&'
+            ty = ty['borrowed_ref']['type']
+        if isinstance(ty, dict):
+            if 'resolved_path' in ty:
+                return ref + ty['resolved_path'].get('path', ty['resolved_path'].get('name', '?')).split('::')[-1]
+            if 'primitive' in ty:
+                return ref + ty['primitive']
+            if 'generic' in ty:
+                return ref + ty['generic']
+        return ref + '?'
+
     def _resolve(self, callee):
         if callee in self.bodies:
             return callee
@@ -1080,7 +1113,15 @@ class Interp:
         plain = mir.strip_generics(c)
         if plain in self.bodies:
             return plain
-        # <T as Trait>::method   (T possibly with generics)
+        # <T as Trait>::method   (T possibly with generics); generic arguments of the method itself are dropped
+        if c.startswith('<'):
+            try:
+                j = mir.match_bracket(c, 0)
+                mm = re.fullmatch(r'::(\w+)::<.*>', c[j + 1:], re.S)
+                if mm:
+                    c = c[:j + 1] + '::' + mm.group(1)
+            except ValueError:
+                pass
         m = re.fullmatch(r'<(.*) as ([^<>]*(?:<.*>)?)>::(\w+)', c, re.S)
         if m:
             ty = m.group(1).strip()
@@ -1131,6 +1172,23 @@ class Interp:
                     return exact[0]
                 if len(best) == 1 and not targs:
                     return best[0]
+                # several impls of one generic trait for the same type (Extend<A> / Extend<&A>, ...): compare the
+                # trait's generic argument as recorded by rustdoc for each impl with the one named by the call
+                if targs:
+                    want = self._short_sig(targs[0])
+                    hits = []
+                    for n in best:
+                        mm = re.match(r'^(.*?)<impl at (.*?):(\d+):(\d+): \d+:\d+>::', n)
+                        infos = self.adts.impl_by_span.get('%s:%s:%s' % (mm.group(2), mm.group(3), mm.group(4))) or []
+                        for _for, tr in infos:
+                            try:
+                                arg = tr['args']['angle_bracketed']['args'][0]['type']
+                            except (KeyError, IndexError, TypeError):
+                                continue
+                            if self._rd_sig(arg) == want:
+                                hits.append(n)
+                    if len(hits) == 1:
+                        return hits[0]
                 return None
             return None
         # inherent / associated fn:  path::Type::method  or free fn with generics stripped
